@@ -587,9 +587,11 @@ class Item:
         if new:
             new[0].ws = ws if ws else " "
         inner = render(self.toks[b:c + 1]).strip()
+        import hashlib
+        span_sha = hashlib.sha256(" ".join(texts(self.toks[b:c + 1])).encode()).hexdigest()[:12]
         self.toks[h:e] = new
         self.log.append({"kind": "abstract-span", "anchor": " ".join(pat), "nth": nth, "tail": " ".join(tail),
-                         "replace": " ".join(texts(rep)), "why": why,
+                         "replace": " ".join(texts(rep)), "why": why, "span_sha": span_sha,
                          "drops": "%d characters of code inside the group are not checked by this unit" % len(inner)})
 
     def rename_ident(self, old, new, why=""):
